@@ -399,6 +399,11 @@ def run(ctx):
     P.correspond(ctx, "cmap-metrics", cmap_lines(ctx.rng("cmap"), ctx.budget(1500, 100000)), classify=classify_cmap)
     P.correspond(ctx, "pipeline-shape", shape_lines(ctx.rng("shape"), chars, ctx.budget(600, 50000)),
                    classify=classify_shape)
+    # the value-record model behind C16_axis_value_record / _apply / _pair_apply against the crate's own Apply impls
+    # (requests, canonicalisation and classification are C07's: SinglePos / PairPos with device tables on a face with ppem)
+    import C07
+    ctx.correspond("gpos-apply-device", lines=C07.subd_lines(ctx.rng("subd"), ctx.budget(1500, 60000)),
+                   classify=C07.classify_subd, canon=C07.canon)
     macroman_search(ctx, shim)
     default_search(ctx, shim, chars, ctx.rng("default"), ctx.budget(500, 40000))
     gpos_axis_search(ctx, shim, ctx.rng("gposaxis"), ctx.budget(300, 20000), ctx.budget(12, 16))
